@@ -14,6 +14,7 @@ for d in /tmp/seed/C*-out/mutant-*; do
     *g) prop=${p%g}; id="$prop-w7m$m" ;;
     *h) prop=${p%h}; id="$prop-w8m$m" ;;
     *i) prop=${p%i}; id="$prop-w9m$m" ;;
+    *j) prop=${p%j}; id="$prop-w10m$m" ;;
     *)  prop=$p; id="$p-m$m" ;;
   esac
   [ -f "seeded/$id/meta.json" ] && continue
